@@ -128,29 +128,69 @@ def pt_json(p):
 
 # ------------------------------------------------------------------ identity obligations
 
+def _points_for(hyps, n, seed, with_m, m_sign):
+    """domain points satisfying hyps: random candidates filtered by the hypotheses, with variables
+    pinned by equality hypotheses (`m == 0`) set exactly."""
+    pins = {}
+    for h in hyps:
+        if h.op == 'eq' and h.args[0].op == 'var' and h.args[1].op == 'const':
+            pins[h.args[0].args[0]] = Fraction(h.args[1].args[0])
+        if h.op == 'eq' and h.args[1].op == 'var' and h.args[0].op == 'const':
+            pins[h.args[1].args[0]] = Fraction(h.args[0].args[0])
+    out = []
+    for sgn in ([m_sign] if m_sign else [None, 'neg', 'pos']):
+        for p in sample_points(n * 3, seed, with_m, sgn):
+            p.update(pins)
+            try:
+                if all(evalc.evaluate(h, p) for h in hyps):
+                    out.append(p)
+            except (evalc.Undefined, KeyError):
+                continue
+            if len(out) >= n:
+                return out
+    return out
+
+
 def identity_ob(oid, function, props, lhs_fn, rhs_fn, hyps, clause, seed=0, with_m=False, m_sign=None,
                 replay_snippet=None, kind='post', deciding=True, n_points=48):
     """lhs_fn/rhs_fn: () -> T (built lazily inside the worker).  Proves lhs == rhs on the domain
-    described by hyps via the exp/ncdf zero test; on failure searches a numeric witness and replays it."""
+    described by hyps via the exp/ncdf zero test (splitting on conditions the hypotheses leave open);
+    on failure searches a numeric witness and replays it."""
+
+    def decide(lhs, rhs, hy, depth, trail):
+        res = sym.zero_test(tm.sub(lhs, rhs), hy, VARMAP)
+        if res['status'] == 'unknown' and res.get('split_on') is not None and depth < 4:
+            c = res['split_on']
+            outs = []
+            for br in (c, tm.not_(c)):
+                if smt.check_sat(hy + [br], timeout_ms=3000, use_cvc5=False).status == 'unsat':
+                    continue     # infeasible branch
+                outs.append(decide(lhs, rhs, hy + [br], depth + 1, trail + [tm.show(br)]))
+            for o in outs:
+                if o[0] != 'proved':
+                    return o
+            return ('proved', hy, {'status': 'proved', 'groups': sum([o[2].get('groups', []) for o in outs], []), 'z3': 'unsat',
+                                   'n_atoms': max([o[2].get('n_atoms', 0) for o in outs] + [0]), 'case_split': trail + ['both branches']})
+        return (res['status'], hy, res)
 
     def check():
         t0 = time.time()
         lhs, rhs = lhs_fn(), rhs_fn()
-        res = sym.zero_test(tm.sub(lhs, rhs), hyps, VARMAP)
-        sample = {'claim': clause, 'hypotheses': [tm.show(h) for h in hyps],
-                  'lhs_from_code': tm.show(sym.simplify_under(lhs, hyps))[:600], 'zero_test': {k: res[k] for k in res if k in ('status', 'z3', 'n_atoms')},
+        status, hy, res = decide(lhs, rhs, list(hyps), 0, [])
+        sample = {'claim': clause, 'hypotheses': [tm.show(h) for h in hy],
+                  'lhs_from_code': tm.show(sym.simplify_under(lhs, hy))[:600], 'zero_test': {k: res[k] for k in res if k in ('status', 'z3', 'n_atoms', 'case_split')},
                   'exponent_groups': res.get('groups', [])[:4]}
-        if res['status'] == 'proved':
+        if status == 'proved':
             # numeric re-validation of generator (sympy/diff) at domain points: guards against a wrong rewrite
-            pts = sample_points(8, seed + 17, with_m, m_sign)
+            pts = _points_for(hyps, 8, seed + 17, with_m, m_sign)
             bad = find_witness(lhs, rhs, pts, rel=1e-20)
             if bad is not None:
                 return Verdict('unknown', 'sympy+z3', time.time() - t0, 'zero test passed but numeric re-validation failed at %s' % (pt_json(bad[1]),), sample=sample)
             return Verdict('proved', 'sympy+z3(QF_NRA)', time.time() - t0, 'identically zero: %d exponent group(s)' % len(res.get('groups', [])), sample=sample)
-        pts = sample_points(n_points, seed, with_m, m_sign)
+        pts = _points_for(hy, n_points, seed, with_m, m_sign)
         w = find_witness(lhs, rhs, pts)
         if w is None:
-            return Verdict('unknown', 'sympy+z3', time.time() - t0, 'zero test: %s (%s); no numeric witness' % (res['status'], res.get('detail', '')), sample=sample)
+            return Verdict('unknown', 'sympy+z3', time.time() - t0, 'zero test: %s (%s); no numeric witness among %d points' % (res['status'], res.get('detail', ''), len(pts)), sample=sample)
         relerr, p, a, b = w
         witness = {'point': pt_json(p), 'code_value': a, 'spec_value': b, 'rel_err': relerr}
         replay = None
